@@ -14,7 +14,7 @@ SCHEMA = {
     # Post.owner -> City shares its attribute NAME with Blog.owner -> Person (different model, different target)
     "Post": {"scalars": ["title", "score"], "one": {"blog": "Blog", "author": "Person", "owner": "City"},
              "many": {"comments": ("Comment", "post"), "tags": ("Tag", "m2m")}},
-    "Comment": {"scalars": ["text", "score"], "one": {"post": "Post"}, "many": {}},
+    "Comment": {"scalars": ["text", "score", "flag"], "one": {"post": "Post"}, "many": {}},
     "Tag": {"scalars": ["label", "weight"], "one": {}, "many": {"posts": ("Post", "m2m")}},
 }
 TABLES = ["City", "Person", "Blog", "Tag", "Post", "Comment"]
@@ -34,6 +34,8 @@ class DB:
             while len(self.rows["City"]) < 2:
                 self.add("City", name="c%d" % (len(self.rows["City"]) + 1))
             kw["city_id"] = self.rows["City"][len(self.rows["Person"]) % 2]["id"]
+        if table == "Comment" and "flag" not in kw:
+            kw["flag"] = kw.get("score", 0) >= 2          # NOT NULL boolean column
         if table == "Post" and "owner_id" not in kw:
             # Post.owner -> City is nullable: every third post has none, the others alternate between the two cities
             k = len(self.rows["Post"])
@@ -359,7 +361,8 @@ def nonnull_body_atoms(var, table):
     if table == "Post":
         return [T.binop("Gt", f("score"), T.Int(1)), T.binop("Eq", f("title"), T.Str("t0")), T.binop("NotEq", f("score"), T.Int(0))]
     if table == "Comment":
-        return [T.binop("Gt", f("score"), T.Int(1)), T.binop("Eq", f("text"), T.Str("c0"))]
+        return [T.binop("Gt", f("score"), T.Int(1)), T.binop("Eq", f("text"), T.Str("c0")), f("flag"), T.unop("Not", f("flag")),
+                T.binop("Eq", f("flag"), T.Bool(True))]
     if table == "Blog":
         return [T.binop("Eq", f("title"), T.Str("b1")), T.binop("NotEq", f("title"), T.Str("b0"))]
     if table == "Tag":
